@@ -11,7 +11,10 @@ use crate::tape::Tape;
 use serde_json::{json, Value};
 
 /// names the macro refers to (or plausibly could): each defined as a local item of some kind
-const SHADOWS: [(&str, &str); 26] = [
+const SHADOWS: [(&str, &str); 28] = [
+    // lower-case items: a parameter *name* of a trait method declaration is a pattern once the method has a body
+    ("ident", "pub const ident: u64 = 0;"),
+    ("key", "pub struct key;"),
     ("Impl", "pub struct Impl;"),
     ("Sync", "pub struct Sync;"),
     ("Send", "pub struct Send;"),
@@ -86,6 +89,12 @@ fn units() -> Vec<(&'static str, &'static str, &'static str)> {
             "trait_static_leaf",
             "#[::entrait::entrait]\npub trait @T@ { fn leaf(&self, x: u64) -> u64; async fn aleaf(&self, x: u64) -> u64; }\nimpl @T@ for App { fn leaf(&self, x: u64) -> u64 { x + 8 } async fn aleaf(&self, x: u64) -> u64 { x + 9 } }\n",
             "{ let app = ::entrait::Impl::new(App); <::entrait::Impl<App> as @T@>::leaf(&app, 5) + crate::rt::block_on(<::entrait::Impl<App> as @T@>::aleaf(&app, 5)) }",
+        ),
+        // parameter names of the declaration that are items in the hostile scope (the user's own impl uses other names)
+        (
+            "trait_parameter_names",
+            "#[::entrait::entrait]\npub trait @T@ { fn pget(&self, ident: u64) -> u64; fn plook(&self, key: u64, ident: u64) -> u64; }\nimpl @T@ for App { fn pget(&self, i: u64) -> u64 { i + 24 } fn plook(&self, k: u64, i: u64) -> u64 { k * 2 + i } }\n",
+            "{ let app = ::entrait::Impl::new(App); <::entrait::Impl<App> as @T@>::pget(&app, 5) + <::entrait::Impl<App> as @T@>::plook(&app, 5, 1) }",
         ),
         (
             "trait_dyn_ref",
